@@ -123,6 +123,8 @@ struct W {
     expect: BTreeMap<String, String>,
     /// content that is only in memtables (lost by reopen)
     unflushed: bool,
+    /// writes since the last successful flush (a reopen loses them: the crate has no WAL)
+    dirty: bool,
 }
 
 impl W {
@@ -212,7 +214,29 @@ pub fn main(args: &[String]) {
         "dump" => {
             let r = std::panic::catch_unwind(|| -> Result<String, String> {
                 let t = cfg(&dir, blob, &SequenceNumberCounter::new(100_000), &SequenceNumberCounter::new(100_000)).open().map_err(|e| format!("open:{e:?}"))?;
-                logical_dump(&t)
+                let d = logical_dump(&t)?;
+                // C20: "always after a reopen the directory contains no table, blob or version file other than those
+                // the current version names" (and every named file exists)
+                let hist = lsm_tree::verif_api::dump_history(crate::ib::index_tree(&t));
+                let mut named: Vec<std::collections::BTreeSet<String>> = vec![Default::default(), Default::default(), Default::default()];
+                for h in &hist {
+                    named[0].extend(h.table_ids.iter().flatten().flatten().map(|x| x.to_string()));
+                    named[1].extend(h.blob_file_ids.iter().map(|x| x.to_string()));
+                    named[2].insert(format!("v{}", h.version_id));
+                }
+                let list = |sub: &str| -> std::collections::BTreeSet<String> {
+                    std::fs::read_dir(dir.join(sub)).map(|rd| rd.flatten().filter(|e| e.path().is_file()).map(|e| e.file_name().to_string_lossy().to_string()).collect()).unwrap_or_default()
+                };
+                let disk = [list("tables"), list("blobs"), list("").into_iter().filter(|n| n.starts_with('v') && n[1..].parse::<u64>().is_ok()).collect()];
+                for (i, what) in ["table", "blob file", "version file"].iter().enumerate() {
+                    if let Some(x) = named[i].difference(&disk[i]).next() {
+                        return Err(format!("C20 after reopen: {what} {x} is named by the recovered version but is not on disk"));
+                    }
+                    if let Some(x) = disk[i].difference(&named[i]).next() {
+                        return Err(format!("C20 after reopen: {what} {x} is on disk but the recovered version does not name it (not reclaimed)"));
+                    }
+                }
+                Ok(d)
             });
             match r {
                 Ok(Ok(s)) => println!("OK {s}"),
@@ -223,8 +247,9 @@ pub fn main(args: &[String]) {
         "run" | "fault" => {
             let fault = mode == "fault";
             let backups = !args.iter().any(|a| a == "--no-backup");
+            let no_retry = args.iter().any(|a| a == "--no-retry");
             let ops = workload(&wl);
-            let mut w = W { dir: dir.clone(), blob, seqno: SequenceNumberCounter::default(), vis: SequenceNumberCounter::default(), tree: None, expect: BTreeMap::new(), unflushed: false };
+            let mut w = W { dir: dir.clone(), blob, seqno: SequenceNumberCounter::default(), vis: SequenceNumberCounter::default(), tree: None, expect: BTreeMap::new(), unflushed: false, dirty: false };
             let bak = PathBuf::from(format!("{}.bak", dir.display()));
             let mut failures = 0;
             for (i, op) in ops.iter().enumerate() {
@@ -242,6 +267,11 @@ pub fn main(args: &[String]) {
                 match r {
                     Ok(Ok(())) => {
                         w.oracle(op);
+                        match op {
+                            FsOp::Put(..) | FsOp::Del(..) => w.dirty = true,
+                            FsOp::Flush | FsOp::Ingest(..) | FsOp::Clear => w.dirty = false,
+                            _ => {}
+                        }
                     }
                     Ok(Err(e)) if fault => {
                         failures += 1;
@@ -259,6 +289,55 @@ pub fn main(args: &[String]) {
                                 AnyTree::Blob(b) => !b.index.is_compacting(),
                             };
                             line.push_str(&format!(" reads_unchanged={} hidden_empty={}", u8::from(unchanged), u8::from(hidden_empty)));
+                        }
+                        if no_retry && w.tree.is_some() {
+                            // C16: "reopening at any time afterwards yields the state from before or after the failed call":
+                            // no retry; drop the handle right away and reopen
+                            let before_reads = before.clone();
+                            w.tree = None;
+                            match cfg(&w.dir, w.blob, &w.seqno, &w.vis).open() {
+                                Ok(t) => {
+                                    w.tree = Some(t);
+                                    // memtable content is lost by a reopen (no WAL): compare only if nothing was unflushed
+                                    let after = w.reads().ok();
+                                    let same = before_reads.is_some() && before_reads == after;
+                                    // "after" state of the failed op is also acceptable
+                                    #[allow(unused_mut)]
+                                    let mut probe = W { dir: w.dir.clone(), blob: w.blob, seqno: w.seqno.clone(), vis: w.vis.clone(), tree: None, expect: w.expect.clone(), unflushed: false, dirty: false };
+                                    let is_after = match (op, &after) {
+                                        // inside a dropped range the property allows either outcome per key
+                                        (FsOp::DropRange(a, b), Some(af)) => {
+                                            w.expect.iter().all(|(k, v)| (k.as_str() >= *a && k.as_str() <= *b) || af.get(k) == Some(v))
+                                                && af.iter().all(|(k, v)| w.expect.get(k) == Some(v))
+                                        }
+                                        _ => {
+                                            probe.oracle(op);
+                                            after.as_ref() == Some(&probe.expect)
+                                        }
+                                    };
+                                    line.push_str(&format!(" reopen_after_failure={}", if same || is_after || w.dirty { "ok" } else { "mismatch" }));
+                                    if !same && is_after {
+                                        if let (FsOp::DropRange(..), Some(af)) = (op, &after) {
+                                            w.expect = af.clone();
+                                        } else {
+                                            w.oracle(op);
+                                        }
+                                    }
+                                    if w.dirty {
+                                        // unflushed writes were lost legitimately: re-synchronise the oracle
+                                        if let Some(a) = after { w.expect = a; }
+                                        w.dirty = false;
+                                    }
+                                }
+                                Err(e) => {
+                                    line.push_str(&format!(" reopen_after_failure=err:{}", format!("{e:?}").replace(' ', "_")));
+                                    println!("{line}");
+                                    println!("FINAL failures={failures} reopen=err-after-failed-op");
+                                    return;
+                                }
+                            }
+                            println!("{line}");
+                            continue;
                         }
                         let retry = std::panic::catch_unwind(std::panic::AssertUnwindSafe(|| w.do_op(op)));
                         match retry {
